@@ -1,7 +1,7 @@
 """pyvc runner: generates the obligations of every contract x configuration from the current
 working tree of /repo, discharges them (z3 one-shot; cvc5 / z3-4.8 CLI as second opinions),
 replays counter-models on the real code, runs negative controls and the engine cross-check."""
-import zlib, os, sys, time, json, subprocess, tempfile, fractions, traceback, multiprocessing as mp, re, random
+import zlib, os, sys, time, json, shutil, subprocess, tempfile, fractions, traceback, multiprocessing as mp, re, random
 import z3
 from .core import *
 from .interp import Interp, Source, DROPPED
@@ -11,6 +11,7 @@ from . import teval as TE
 
 TIMEOUT_MS = {'quick': int(os.environ.get('PYVC_TIMEOUT_MS', 30000)), 'thorough': int(os.environ.get('PYVC_TIMEOUT_MS', 120000))}
 HEAVY_BUDGET_S = {'quick': 240, 'thorough': 1200}
+CONTROL_BUDGET_S = 45
 BASE_ASSUMPTIONS = [
     "A1 float/float64 arithmetic treated as mathematical reals (rounding is covered only by the bounded run-time tier)",
     "A2 Python/NumPy integers treated as unbounded mathematical integers (no int64 overflow)",
@@ -251,6 +252,14 @@ def prove(pc, goal, timeout_ms, cross=False, light=False, inputs=None):
     # a short first attempt (valid obligations discharge in well under a second); when it is inconclusive the cheap
     # counter-model searches run BEFORE the full budget is spent
     so, r = attempt(min(4000, timeout_ms))
+    fresh_backend = None
+    if r == z3.unknown:
+        # the same query in a FRESH solver process (z3 5.1 command line on the exported SMT-LIB text): the in-process
+        # context has accumulated the terms of the whole exploration, and queries that take 0.2 s in a clean context were
+        # seen to need minutes (or time out) there
+        res = run_z3_cli(so.to_smt2(), max(5, timeout_ms // 1000))
+        if res == 'unsat':
+            return 'discharged', 'z3-5.1(fresh process)', time.time() - t0, None, ''
     if r == z3.unknown:
         sr = refute_with_line_abstraction(pc, g, inputs)
         if sr is not None:
@@ -295,6 +304,23 @@ def prove(pc, goal, timeout_ms, cross=False, light=False, inputs=None):
                     return 'error', name, time.time() - t0, None, f'back ends disagree: z3-5.1 says {r}, {name} says {res}'
             backend += '+' + '+'.join(f'{n}:{v}' for n, v in others.items())
     return status, backend, time.time() - t0, model, reason
+
+
+def run_z3_cli(smt, tlimit_s):
+    z3new = shutil.which('z3-new') or '/opt/veriftools/pyvenv/bin/z3'
+    if not os.path.exists(z3new):
+        return 'unknown'
+    with tempfile.NamedTemporaryFile('w', suffix='.smt2', delete=False, dir=os.environ.get('TMPDIR', '/tmp')) as fh:
+        fh.write(smt)
+        path = fh.name
+    try:
+        r = subprocess.run([z3new, f'-T:{tlimit_s}', path], capture_output=True, text=True, timeout=tlimit_s + 5)
+        first = (r.stdout.strip().splitlines() or ['unknown'])[0].strip()
+        return first if first in ('sat', 'unsat') else 'unknown'
+    except Exception:
+        return 'unknown'
+    finally:
+        os.unlink(path)
 
 
 def run_external(smt, tlimit_s):
@@ -572,7 +598,10 @@ def run_task(args):
         if mutant and mod.MUTANTS[mutant].get('expect'):
             # the control names the clause it is meant to break: only those obligations are tried
             obs = [ob for ob in obs if mod.MUTANTS[mutant]['expect'] in ob['text']]
+        t_ctl = time.time()
         for ob in obs:
+            if mutant and time.time() - t_ctl > CONTROL_BUDGET_S:
+                break           # a control that is not refuted within its budget is reported as inconclusive
             if mutant:
                 # negative control: one refuted obligation is all that is asked for (short budget, no second opinions)
                 status, backend, secs, model, reason = prove(ob['pc'], ob['goal'], TIMEOUT_MS[tier] if mod.MUTANTS[mutant].get('expect') else min(8000, TIMEOUT_MS[tier]), light=True, inputs=ob.get('inputs'))
@@ -583,6 +612,12 @@ def run_task(args):
                 status, backend, secs, model, reason = prove(ob['pc'], ob['goal'], TIMEOUT_MS[tier], cross=(tier == 'thorough'), light=heavy_left <= 0, inputs=ob.get('inputs'))
                 if secs > TIMEOUT_MS[tier] / 1000.0:
                     res['heavy_seconds'] = res.get('heavy_seconds', 0.0) + secs - TIMEOUT_MS[tier] / 1000.0
+            if status == 'undecided' and os.environ.get('PYVC_DUMP_HARD') and not mutant:
+                os.makedirs(os.environ['PYVC_DUMP_HARD'], exist_ok=True)
+                so_ = z3.Solver()
+                so_.add(*ob['pc'])
+                so_.add(z3.Not(ob['goal']) if not isinstance(ob['goal'], bool) else z3.BoolVal(not ob['goal']))
+                open(os.path.join(os.environ['PYVC_DUMP_HARD'], re.sub(r'[^A-Za-z0-9]+', '_', ob['id'])[:150] + '.smt2'), 'w').write(so_.to_smt2())
             rec = {k: ob[k] for k in ('key', 'id', 'config', 'kind', 'text')}
             rec.update(status=status, backend=backend, seconds=round(secs, 3), reason=reason, contract=cname, cfg=cfg)
             res['solver_seconds'] += secs
@@ -800,6 +835,8 @@ def run_property(mod, prop, tier, seed, jobs):
             tasks.append((mod.__name__, prop, C.name, cfg, tier, None))
     mut_tasks = []
     for mname, m in getattr(mod, 'MUTANTS', {}).items():
+        if m.get('tier') == 'thorough' and tier != 'thorough':
+            continue          # an expensive control (exploration of the mutated source is slow): thorough tier only
         C = mod.contract(m['contract'])
         cfgs = [c for c in C.configs(tier) if all(c.get(k) == v for k, v in m.get('config', {}).items())][:1]
         for cfg in cfgs:
